@@ -29,13 +29,13 @@ NSPOOL = [("http://e/", "ex"), ("http://f/", "f"), ("http://www.wikidata.org/ent
 D = os.path.join(core.WORK, "c10")
 
 FINDINGS = {"nonIri_answer": "C10-F1", "same_shape_name": "C10-F5", "tau_literal": "C10-F6",
-            "repeated_statement": "C10-F7", "at_in_label": "C10-F8"}
+            "repeated_statement": "C10-F7", "at_in_label": "C10-F8", "prefix_in_local": "C10-F9"}
 # which root causes may explain which kind of oracle failure
 EXPLAINS = {"raised": ["at_in_label", "tau_literal"],
-            "instances": ["nonIri_answer"],
+            "instances": ["nonIri_answer", "prefix_in_local", "at_in_label"],
             "text-raised": ["nonIri_answer", "tau_literal"],
             "repeated": ["repeated_statement"],
-            "text": ["nonIri_answer", "repeated_statement", "same_shape_name"]}
+            "text": ["nonIri_answer", "repeated_statement", "same_shape_name", "prefix_in_local", "at_in_label"]}
 
 
 # ---------------------------------------------------------------------------------------------
@@ -210,7 +210,8 @@ def shape_iri(S):
 # ---------------------------------------------------------------------------------------------
 
 def mkref(r, iri, ns, allow_full, p_pref=0.45):
-    cands = [(n, p) for (n, p) in ns if iri.startswith(n) and iri[len(n):] and not re.search(r"[/#:]", iri[len(n):])]
+    # local names may carry ':' '.' '-' '%xx' (legal PN_LOCALs)
+    cands = [(n, p) for (n, p) in ns if iri.startswith(n) and iri[len(n):] and not re.search(r"[/#]", iri[len(n):])]
     k = r.random()
     if cands and k < p_pref:
         n, p = cands[0]
@@ -222,15 +223,21 @@ def mkref(r, iri, ns, allow_full, p_pref=0.45):
 
 def gen_graph(r):
     typing = [RT] + [t for t in (KIND, P31) if r.random() < 0.45]
-    pool = ["http://e/C0", "http://e/C1", "http://f/C2", "http://www.wikidata.org/entity/Q5", "http://e/voc#K"]
+    pool = ["http://e/C0", "http://e/C1", "http://f/C2", "http://www.wikidata.org/entity/Q5", "http://e/voc#K",
+            "http://e/K:1"]
     if r.random() < 0.04:
         pool.append("http://f/C0")          # same local name as http://e/C0
     classes = r.sample(pool, r.randint(1, min(4, len(pool))))
     nodes = [["I", "http://e/n%d" % i] for i in range(r.randint(2, 6))]
     if r.random() < 0.04:
-        nodes.append(["I", "http://e/u@h"])     # an IRI with '@' (fixed shape-map syntax cannot carry it)
+        nodes.append(["I", "http://e/u@h"])     # an IRI with '@'
+    if r.random() < 0.3:                        # punctuation in local names; tax / tax:9606 differ only after the ':'
+        nodes += r.sample([["I", "http://e/tax:9606"], ["I", "http://e/tax"], ["I", "http://e/a.b-c"],
+                           ["I", "http://e/x%20y"], ["I", "http://e/n0:n1:n2"]], r.randint(1, 3))
     nodes += [["B", "_:b%d" % i] for i in range(r.choice([0, 0, 1, 1, 2]))]
     props = ["http://e/p%d" % i for i in range(r.randint(1, 3))]
+    if r.random() < 0.25:
+        props += r.sample(["http://e/p:q", "http://e/p", "http://e/p.r-s"], r.randint(1, 2))
     G = []
     for tp in typing:
         dens = r.choice([0.25, 0.4, 0.6])
@@ -525,7 +532,7 @@ def _colors(triples):
 def bnode_map(rg, G):
     """rdflib blank-node id -> label of the document, recovered structurally"""
     impl = [(_abs_term(s), str(p), _abs_term(o)) for s, p, o in rg]
-    mine = [(tup(s), p, tup(o)) for s, p, o in G]
+    mine = list(dict.fromkeys((tup(s), p, tup(o)) for s, p, o in G))   # the rdflib graph holds each statement once
     ci, cm = _colors(impl), _colors(mine)
     by = collections.defaultdict(list)
     for b, c in sorted(cm.items()):
